@@ -316,6 +316,51 @@ Section HeadersSync.
     end.
 End HeadersSync.
 
+(* ---------------------------------------------------------------------------------------------- *)
+(* Specification side: the commitment clause of the property, as an executable predicate on what an
+   implementation REPORTED for a peer history.
+
+   [cv p h0 l]: the commitment bits of a run of headers [l] whose predecessor has height [h0]: the
+   bits of the headers at the heights with height % commitment_period = commit_offset. *)
+Fixpoint cv (p : hs_params) (h0 : Z) (l : list hdr) : list bool :=
+  match l with
+  | [] => []
+  | x :: t => (if is_commitment_height p (h0 + 1) then [h_cbit x] else []) ++ cv p (h0 + 1) t
+  end.
+
+Fixpoint bits_prefix (a b : list bool) : bool :=
+  match a, b with
+  | [], _ => true
+  | x :: a', y :: b' => Bool.eqb x y && bits_prefix a' b'
+  | _ :: _, [] => false
+  end.
+
+Definition is_presync (st : sync_state) : bool := match st with PRESYNC => true | _ => false end.
+Definition is_redl (st : sync_state) : bool := match st with REDOWNLOAD => true | _ => false end.
+
+(* [outs]: per call, (success, state after the call) as reported.  [a] / [b]: the headers of the
+   successful calls made in PRESYNC / REDOWNLOAD so far.  Whenever the sync is reported to go on in
+   REDOWNLOAD (so the re-downloaded chain has not reached the minimum work: otherwise everything
+   is released and the sync ends), every re-downloaded header accepted so far that sits at a
+   commitment height must carry the bit the first pass committed to at that height, and in
+   particular the first pass must HAVE a commitment for that height: cv b is a prefix of cv a. *)
+Fixpoint holds_commit (p : hs_params) (st : sync_state) (a b : list hdr)
+         (calls : list (list hdr * bool)) (outs : list (bool * sync_state)) : bool :=
+  match calls, outs with
+  | (hs, _) :: calls', (ok, st') :: outs' =>
+    let a' := a ++ (if ok && is_presync st then hs else []) in
+    let b' := b ++ (if ok && is_redl st then hs else []) in
+    (if is_redl st' then bits_prefix (cv p (p_start_height p) b') (cv p (p_start_height p) a') else true)
+    && holds_commit p st' a' b' calls' outs'
+  | _, _ => true
+  end.
+
+(* heights must stay representable (int in the first pass): outside that range nothing is claimed *)
+Definition holds_commitments (p : hs_params) (calls : list (list hdr * bool)) (outs : list (bool * sync_state)) : bool :=
+  if (0 <=? p_start_height p) && (p_start_height p + Z.of_nat (length (concat (map fst calls))) <=? INT32_MAX)
+  then holds_commit p PRESYNC [] [] calls outs
+  else true.
+
 (* the instance run by the correspondence: main chain rules *)
 Definition permitted_main (height old_bits new_bits : Z) : bool :=
   match permitted_transition chain_main height old_bits new_bits with Some b => b | None => false end.
